@@ -605,7 +605,8 @@ class PyEval(MiniEval):
                 elif isinstance(st.exc, ast.Name) and isinstance(env.get(st.exc.id), Tok) and env[st.exc.id].attrs.get("__class__"):
                     cls = env[st.exc.id].attrs["__class__"]
                 return ("raise", cls or ast.unparse(st)[:80])
-            if getattr(self, "lenient", False) and isinstance(st, (ast.Assign, ast.AnnAssign, ast.AugAssign, ast.Expr)):
+            if getattr(self, "lenient", False) and isinstance(st, (ast.Assign, ast.AnnAssign, ast.AugAssign, ast.Expr)) \
+                    and not (isinstance(st, ast.Expr) and isinstance(st.value, ast.Call) and self.is_followed_call(st.value, env)):
                 # lenient mode (opt-in): a straight-line statement that cannot be evaluated (it builds a diagnostic, say)
                 # binds its targets to opaque values instead of abandoning the whole run; tests on such values still abort
                 try:
@@ -646,12 +647,28 @@ class PyEval(MiniEval):
                 if len(p.patterns) == 1:
                     return self.match(p.patterns[0], v, env)
                 return not p.patterns
-            if cn and not p.patterns:
+            if cn:
                 # repository class: tokens carry their class and base-class names
                 if not isinstance(v, Tok):
                     return False
                 if cn.split(".")[-1] not in v.classes():
                     return False
+                if p.patterns:
+                    # positional sub-patterns follow __match_args__: given by the token, else the dataclass fields of the
+                    # repository class (base classes first), as @dataclass generates them
+                    names = v.attrs.get("__match_args__")
+                    if names is None:
+                        c = self.idx.resolve_class_name(self.module, cn)
+                        if c is None or not c.is_dataclass():
+                            raise Unsupported(f"positional class pattern {ast.unparse(p.cls)} (no __match_args__ known)")
+                        names = [n for k in reversed(c.mro()) for n, _ in k.own_fields()]
+                    if len(p.patterns) > len(names):
+                        raise Raised(f"{cn}() accepts {len(names)} positional sub-patterns", "TypeError")
+                    for k, sub in zip(names, p.patterns):
+                        if k not in v.attrs:
+                            raise Unsupported(f"token {v!r} has no attribute {k}")
+                        if not self.match(sub, v.attrs[k], env):
+                            return False
                 for k, sub in zip(p.kwd_attrs, p.kwd_patterns):
                     if k not in v.attrs:
                         raise Unsupported(f"token {v!r} has no attribute {k}")
@@ -669,6 +686,25 @@ class PyEval(MiniEval):
         raise Unsupported(f"pattern {type(p).__name__}")
 
     # ---- calls
+    def is_followed_call(self, v: ast.Call, env: dict) -> bool:
+        """Does this call go into code the interpreter evaluates (hook, local function, repository function, method of a
+        token's class, mutation of a concrete container)?"""
+        fn = ast.unparse(v.func)
+        if fn in env and callable(env[fn]):
+            return True
+        if isinstance(v.func, ast.Name):
+            f = self.idx.funcs.get(self.idx.resolve_name(self.module, v.func.id))
+            return f is not None and f.cls is None
+        if isinstance(v.func, ast.Attribute):
+            try:
+                recv = self.ev(v.func.value, env)
+            except Unsupported:
+                return False
+            if isinstance(recv, Tok):
+                return v.func.attr in recv.attrs.get("__methods__", {}) or any(c.find_method(v.func.attr) is not None for c in recv.attrs.get("__classes__", ()))
+            return isinstance(recv, (dict, list, set))
+        return False
+
     def side_effect_stmt(self, st: ast.stmt, env: dict) -> None:
         """An expression statement `f(...)`.  If `f` is code the interpreter follows -- a hook, a local function, a repository
         function, a method of a token's class -- then "cannot evaluate" is NOT "returns normally": the callee may be the very
@@ -677,22 +713,7 @@ class PyEval(MiniEval):
         v = getattr(st, "value", None)
         if not isinstance(v, ast.Call):
             return
-        followed = False
-        fn = ast.unparse(v.func)
-        if fn in env and callable(env[fn]):
-            followed = True
-        elif isinstance(v.func, ast.Name):
-            f = self.idx.funcs.get(self.idx.resolve_name(self.module, v.func.id))
-            followed = f is not None and f.cls is None
-        elif isinstance(v.func, ast.Attribute):
-            try:
-                recv = self.ev(v.func.value, env)
-            except Unsupported:
-                recv = None
-            if isinstance(recv, Tok):
-                followed = v.func.attr in recv.attrs.get("__methods__", {}) or any(c.find_method(v.func.attr) is not None for c in recv.attrs.get("__classes__", ()))
-            elif isinstance(recv, (dict, list, set)):
-                followed = True  # mutation of a concrete container
+        followed = self.is_followed_call(v, env)
         if followed:
             self.call(v, env)
             return
